@@ -85,4 +85,15 @@ Section C02.
     exists l, get_predecessor_nodes teqb g x = Ok l /\ NoDup (map nname l) /\
               forall y, In y (map nname l) <-> group teqb g (y, x) <> None.
   Proof. exact (get_predecessor_nodes_spec teqb tltb). Qed.
+
+  (* neighbour list (both graph kinds): duplicate-free; exactly the nodes joined to x by a stored
+     edge in either direction *)
+  Theorem C02_neighbor_nodes : forall (g : gstate) x,
+    WF g -> In x (names g) ->
+    exists l, get_neighbor_nodes teqb g x = Ok l /\ NoDup (map nname l) /\
+              forall y, In y (map nname l) <->
+                        (In y (names g) /\
+                         (group teqb g (cn tltb (sp g) x y) <> None \/
+                          (directed (sp g) = true /\ group teqb g (y, x) <> None))).
+  Proof. exact (get_neighbor_nodes_spec teqb tltb). Qed.
 End C02.
